@@ -103,3 +103,33 @@ package utils
 //@   requires p != nil
 //@   modifies misc(p), ghostInt(p, "taken")
 //@   ensures ghostInt(p, "taken") == old(ghostInt(p, "taken")) + 1
+
+// ---- C15: emulation-prevention bytes (H.264 7.3.1 / H.265 7.3.1.1) ------------------------------------------------------
+// In the NAL unit syntax every 0x000003 found while scanning the payload left to right yields two zero bytes of RBSP and
+// drops the 0x03 (emulation_prevention_three_byte). Occurrences of 00 00 03 cannot overlap, so byte j of the payload is
+// such a byte exactly when pat3(f, j-2): the two bytes before it are zero and it is 3 - a statement about the INPUT only
+// (bytes already dropped or already written play no part). epbCount(f, k) = number of such bytes among f[0:k).
+// The result is the payload without them: byte j that is kept lands at index j - epbCount(f, j), and the length is
+// len(f) - epbCount(f, len(f)). The start-code prefix (00 00 01 / 00 00 00 01) is not part of the payload.
+//@ spec func sepLen(b []byte) int = iteInt(len(b) >= 4 && b[0] == 0 && b[1] == 0 && b[2] == 0 && b[3] == 1, 4, iteInt(len(b) >= 3 && b[0] == 0 && b[1] == 0 && b[2] == 1, 3, 0))
+//@ spec func pat3(f []byte, j int) bool = 0 <= j && j+2 < len(f) && f[j] == 0 && f[j+1] == 0 && f[j+2] == 3
+//@ spec func epbCount(f []byte, k int) int = rec iteInt(k <= 0, 0, epbCount(f, k-1) + iteInt(pat3(f, k-3), 1, 0))
+//@ func RemoveNaluSeparator(nalu []byte) (r []byte)
+//@   trusted
+//@   requires len(nalu) < 1<<40
+//@   modifies
+//@   ensures sameHdr(r, nalu[sepLen(nalu):])
+//@ func RemoveH264or5EmulationBytes(from []byte) (r []byte)
+//@   requires len(from) < 1<<40
+//@   modifies
+//@   local to []byte
+//@   local toSize, i, fromSize, toMaxSize int
+//@   loop 0: invariant fromSize == len(from) && toMaxSize == fromSize && len(to) == fromSize && 0 <= i && i <= fromSize && 0 <= toSize && fromSize < 1<<40
+//@   loop 0: invariant toSize == i - epbCount(from, i) && 0 <= epbCount(from, i) && epbCount(from, i+1) >= 0
+//@   loop 0: invariant !pat3(from, i-2) && !pat3(from, i-1)
+//@   loop 0: invariant forall(j, 0, i, !pat3(from, j-2) ==> 0 <= j - epbCount(from, j) && j - epbCount(from, j) < toSize && to[j - epbCount(from, j)] == from[j])
+//@   loop 0: invariant sameHdr(from, old(from)[sepLen(old(from)):])
+//@   loop 0: modifies to[:]
+//@   loop 0: decreases fromSize - i
+//@   ensures len(r) == len(from) - sepLen(from) - epbCount(from[sepLen(from):], len(from) - sepLen(from))
+//@   ensures forall(j, 0, len(from) - sepLen(from), !pat3(from[sepLen(from):], j-2) ==> 0 <= j - epbCount(from[sepLen(from):], j) && j - epbCount(from[sepLen(from):], j) < len(r) && r[j - epbCount(from[sepLen(from):], j)] == from[sepLen(from)+j])
